@@ -35,6 +35,7 @@ func (m *CPU) Run(app risc.Application) (int, error) {
 loop:
 	var pc int32
 	for pc/4 < int32(len(app.Instructions)) {
+		m.ctx.VerifTick(0, m.cycle)
 		nextPc := m.fetchInstruction(pc)
 		r := m.decode(app, nextPc)
 		exe, ins, err := m.execute(app, r, pc)
@@ -114,6 +115,7 @@ func (m *CPU) execute(app risc.Application, r risc.InstructionRunner, pc int32) 
 	if err != nil {
 		return risc.Execution{}, 0, err
 	}
+	m.ctx.VerifExec(0, pc, exe, memory)
 	m.cycle += r.InstructionType().Cycles()
 	return exe, r.InstructionType(), nil
 }
